@@ -12,7 +12,9 @@ from fractions import Fraction
 from common import *
 
 RULE = ("one PRNG drives six paired streams. kfl-lattice: sizes 2-4, dims 1-4, terms 1-3, units 1-2, clip on/off, "
-        "dyadic/int/wide kernels, scale, bias; points on vertices, cell interiors, outside when clipping. "
+        "dyadic/int/wide kernels, scale, bias; points on vertices, cell interiors, outside the range with clip on "
+        "(clipped: in the property) AND with clip off (class outside:clip_off_out_of_range: model vs real only); the "
+        "dense Lattice is evaluated through BOTH input forms (one tensor / list of per-feature tensors). "
         "pwlfn-layer: 2-7 keypoints, units 1-3, monotonicity none/increasing, every clamp/cyclic/missing mode, "
         "all documented parameter shapes (omitted, rank 2/3, unit axis 1/units, batch axis 1/B), float32 (float64 "
         "where the code allows), logits zero/small/dyadic/|p|<=12; inputs on derived keypoints, between, outside, at "
@@ -23,7 +25,21 @@ RULE = ("one PRNG drives six paired streams. kfl-lattice: sizes 2-4, dims 1-4, t
         "single_output on/off. aggregation: lattice model over 1-3 ragged features, rows of length 0-5. rtl: dict or "
         "plain inputs, rank 1-3, sizes 2-3, hypercube/simplex, average on/off, random kernels assigned. "
         "Non-trivial = non-constant outputs; distinct = (pair, config class, output hash).")
-ASSUMPTIONS = ["float32 wherever the code hard-casts (KFL custom gradient, tf.zeros/tf.fill in pwl_calibration_fn, "
+ASSUMPTIONS = ["EXPLICIT EXCLUSIONS (counted classes, reported in the distribution): "
+               "(1) `outside:clip_off_out_of_range` -- KFL vs Lattice with clip_inputs=False and a coordinate outside "
+               "[0, L-1]: neither layer interpolates there (no containing cell; the Lattice side is outside C02), the "
+               "two representations and even the two input forms of the same dense Lattice are different functions "
+               "(Props/C14.lean C14_T1_needs_in_range). Such points ARE generated; KFL, Lattice(tensor) and "
+               "Lattice(list) are each compared with the model; the `agree` clause is evaluated on every in-range or "
+               "clipped point and on no other. "
+               "(2) `outside:cyclic_two_keypoints_no_paired_layer` -- pwl_calibration_fn(is_cyclic=True) with two "
+               "keypoints: PWLCalibration.build raises ValueError ('k > 1'), so no layer 'holding the corresponding "
+               "keypoints and weights' exists (C14_T2_cyclic_two_keypoints_no_paired_layer); the harness BUILDS the "
+               "layer and requires that ValueError (anything else is a failure), the function is still compared with "
+               "the model. (3) `outside:collapsed_keypoints_no_paired_layer` -- float softmax underflow makes two "
+               "derived keypoints equal (C05/C15 findings F-C05-a / F-C15-b): the PWLCalibration constructor raises "
+               "ValueError, checked the same way",
+               "float32 wherever the code hard-casts (KFL custom gradient, tf.zeros/tf.fill in pwl_calibration_fn, "
                "tf.constant input scaling of CDF): rtol 1e-4 (KFL) / 1e-5 * magnitude; float64 otherwise with 1e-9",
                "softmax / sigmoid are TF's: the harness evaluates tf.nn.softmax / tf.sigmoid on the padded logits it "
                "builds itself and hands the floats to the model as finite tables (exact rationals)",
@@ -101,10 +117,14 @@ def gen_kfl(rng):
     for _u in range(U):
       if r < 0.2:
         p = [Fraction(rng.randint(0, L - 1)) for _ in range(dims)]                       # vertex
-      elif r < 0.75 or not clip:
+      elif r < 0.72:
         p = [Fraction(rng.randint(0, 8 * (L - 1)), 8) for _ in range(dims)]              # in range (cell faces too)
+      elif r < 0.9 or dims == 1:
+        # outside: clipped (clip on) or class outside:clip_off_out_of_range (clip off)
+        p = [Fraction(rng.randint(-12, 8 * L + 4), 8) for _ in range(dims)]
       else:
-        p = [Fraction(rng.randint(-12, 8 * L + 4), 8) for _ in range(dims)]              # outside, clipped
+        p = [Fraction(rng.randint(0, 8 * (L - 1)), 8) for _ in range(dims)]              # exactly one coordinate outside
+        p[rng.randrange(dims)] = rng.choice([Fraction(-rng.randint(1, 12), 8), L - 1 + Fraction(rng.randint(1, 12), 8)])
       row.append(p)
     pts.append(row)
   if rng.random() < 0.3:
@@ -147,10 +167,12 @@ def run_kfl(case):
   lat.kernel.assign(dense.astype(np.float32))
   X = np.array([[[float(v) for v in p] for p in row] for row in case["pts"]], dtype=np.float32)   # (B, U, dims)
   xin = tf.constant(X[:, 0, :] if U == 1 else X)
+  xlist = [xin[..., d:d + 1] for d in range(dims)]       # the list-of-per-feature-tensors input form
   real = dict(dense=dense, X=X)
   try:
     real["kfl"] = kfl(xin).numpy().reshape(len(X), U)
     real["lat"] = lat(xin).numpy().reshape(len(X), U)
+    real["latlist"] = lat(xlist).numpy().reshape(len(X), U)
     real["err"] = None
   except Exception as e:
     real["err"] = classify_exc(e)
@@ -172,7 +194,8 @@ def check_kfl(ctx, case, real, replies):
     ctx.fail("raises", key, case, real["err"], "valid KFL / Lattice pair rejected")
     ctx.case(sig=("kfl", cls, "err"), sample=case)
     return
-  yk, yl = real["kfl"], real["lat"]
+  yk, yl, yll = real["kfl"], real["lat"], real["latlist"]
+  L = case["L"]
   for u in range(case["U"]):
     mag = abs(float(case["bias"][u])) + sum(
         abs(float(case["scale"][u][t])) * float(np.prod([max(abs(float(v)) for v in case["kern"][u][t][d])
@@ -180,18 +203,40 @@ def check_kfl(ctx, case, real, replies):
         for t in range(case["T"])) / case["T"]
     scale = max(1.0, mag)
     toks = replies[u].split(" ")
-    if len(toks) != 3 or toks[2].startswith("ERR"):
+    if len(toks) != 4 or toks[2].startswith("ERR") or toks[3].startswith("ERR"):
       ctx.disagree("alt.kfl", case, None, replies[u], "model rejects / malformed")
       continue
     ctx.compare("alt.kfl.dense_kernel", case, real["dense"][:, u], parse_rats(toks[0]), scale, rtol=1e-6)
-    ctx.compare("alt.kfl.eval", case, yk[:, u], parse_rats(toks[1]), scale, rtol=1e-4)
-    ctx.compare("alt.kfl.lattice_on_dense", case, yl[:, u], parse_rats(toks[2]), scale, rtol=1e-4)
-    # oracle: the two real layers agree
+    mk, ml, mll = parse_rats(toks[1]), parse_rats(toks[2]), parse_rats(toks[3])
     for b in range(len(yk)):
-      a, c = float(yk[b, u]), float(yl[b, u])
-      if not (math.isfinite(a) and math.isfinite(c)) or abs(a - c) > 1e-4 * scale:
-        ctx.fail("agree", key, case, [a, c], "unit %d point %r: KFL %r vs Lattice(dense kernel) %r tol %g" % (
-            u, real["X"][b, u].tolist(), a, c, 1e-4 * scale))
+      xb = [float(v) for v in real["X"][b, u]]
+      inr = all(0.0 <= v <= L - 1 for v in xb)
+      defined = case["clip"] or inr
+      # unclipped out-of-range points extrapolate: the magnitude grows with prod(1 + |x_d|)
+      sc = scale * (1.0 if defined else float(np.prod([1.0 + abs(v) for v in xb])))
+      sub = dict(case, pts=[case["pts"][b]] if b < len(case["pts"]) else case["pts"][-1:])
+      # model vs real, point by point, for the KFL and BOTH input forms of the dense Lattice -- also outside the property
+      ctx.compare("alt.kfl.eval", sub, [yk[b, u]], [mk[b]], sc, rtol=1e-4)
+      ctx.compare("alt.kfl.lattice_on_dense", sub, [yl[b, u]], [ml[b]], sc, rtol=1e-4)
+      ctx.compare("alt.kfl.lattice_list_on_dense", sub, [yll[b, u]], [mll[b]], sc, rtol=1e-4)
+      a, c, cl = float(yk[b, u]), float(yl[b, u]), float(yll[b, u])
+      ctx.count("kfl-scope:" + ("in_range" if inr else ("clipped" if case["clip"] else "outside:clip_off_out_of_range")))
+      if not defined:
+        # EXPLICIT exclusion (see ASSUMPTIONS): no agreement is claimed; record that the exclusion is not vacuous
+        ctx.count("outside:clip_off_out_of_range")
+        if abs(a - c) > 1e-4 * sc:
+          ctx.count("outside:clip_off_out_of_range:kfl-differs-from-lattice(tensor)")
+        if abs(a - cl) > 1e-4 * sc:
+          ctx.count("outside:clip_off_out_of_range:kfl-differs-from-lattice(list)")
+        if abs(c - cl) > 1e-4 * sc:
+          ctx.count("outside:clip_off_out_of_range:lattice-tensor-differs-from-list")
+        continue
+      # oracle: the real layers agree (in range or clipped), through both input forms of the Lattice
+      ctx.count("clause:agree-evaluated:kfl")
+      for name, other in (("tensor", c), ("list", cl)):
+        if not (math.isfinite(a) and math.isfinite(other)) or abs(a - other) > 1e-4 * scale:
+          ctx.fail("agree", key, case, [a, other], "unit %d point %r: KFL %r vs Lattice(dense kernel, %s input) %r tol %g" % (
+              u, real["X"][b, u].tolist(), a, name, other, 1e-4 * scale))
   ctx.case(sig=("kfl", cls, case["kind"], ohash(yk)), nontrivial=float(np.ptp(yk)) > 0,
            sample=dict(case=case, kfl=yk, lattice=yl))
 
@@ -524,19 +569,30 @@ def paired_layers(tf, case, real):
       mo.append(d(d(float(case["omin"])) + s * d(float(case["omax"] - case["omin"]))))
   fixed = np.zeros((B, units), dtype=np.float64)
   note = None
-  if n - int(case["cyclic"]) < 2:
-    return None, None, "one-row-kernel"       # PWLCalibration needs >= 2 kernel rows; the function does not
   for u in range(units):
     du = deltas[0, u if deltas.shape[1] > 1 else 0]
     ku = kernel[0, u if kernel.shape[1] > 1 else 0]
     kps = np.concatenate([[d(float(case["imin"]))], (d(float(case["imin"])) + np.cumsum(du, dtype=d)).astype(d)])
-    if not np.all(np.diff(kps) > 0) or not np.all(np.isfinite(kps)):
-      return None, None, "collapsed-keypoints"
     kw = dict(input_keypoints=[float(v) for v in kps], units=1, dtype=case["dtype"], is_cyclic=case["cyclic"])
     if mo is not None:
       kw.update(impute_missing=True, missing_input_value=float(case["miv"]), missing_output_value=float(mo[u]))
-    layer = tfl.layers.PWLCalibration(**kw)
-    layer.build((None, 1))
+    # the two configurations for which NO paired layer exists: the layer is constructed / built anyway and must
+    # refuse with a ValueError -- then the case is outside the property (explicit class); if it does NOT refuse, the
+    # comparison below runs as for any other case
+    expect_refusal = None
+    if n - int(case["cyclic"]) < 2:
+      expect_refusal = "outside:cyclic_two_keypoints_no_paired_layer"     # build: "weights must have shape [k, units], k > 1"
+    elif not np.all(np.diff(kps) > 0) or not np.all(np.isfinite(kps)):
+      expect_refusal = "outside:collapsed_keypoints_no_paired_layer"      # __init__: keypoints must be strictly increasing
+    try:
+      layer = tfl.layers.PWLCalibration(**kw)
+      layer.build((None, 1))
+    except ValueError:
+      if expect_refusal is None:
+        raise
+      return None, None, expect_refusal
+    if expect_refusal is not None:
+      note = "unexpectedly-buildable:" + expect_refusal
     kcol = ku[:-1] if case["cyclic"] else ku
     layer.kernel.assign(np.array(kcol, dtype=d).reshape(-1, 1))
     fixed[:, u] = layer(tf.constant(X[:, [u if case["cols"] > 1 else 0]])).numpy()[:, 0]
@@ -581,7 +637,13 @@ def check_pwlfn_pair(ctx, case, real, replies):
     except Exception as e:
       fixed, learned, note = None, None, "layer-build:" + classify_exc(e)
       ctx.fail("agree", key, case, note, "paired PWLCalibration layer cannot be built: %r" % (e,))
-    if note:
+    if note and note.startswith("outside:"):
+      # EXPLICIT exclusion: the paired layer does not exist (its constructor / build raised the ValueError)
+      ctx.count(note)
+    elif note and note.startswith("unexpectedly-buildable:"):
+      # the layer the model says cannot exist was built: not silently tolerated (the comparison below still runs)
+      ctx.disagree("alt.pwlfn.paired_layer_exists", case, "built", "model: not Buildable", note)
+    elif note:
       ctx.count("pwlfn-pair:" + note.split(":")[0])
     for name, other in (("fixed", fixed), ("learned_interior", learned)):
       if other is None:
